@@ -554,8 +554,11 @@ pub fn defining_bound(op: Op, a: &[Val], u: f64) -> Option<Jet<DD>> {
     use Op::*;
     let op = op.canonical();
     let x = &a[0];
-    if matches!(op, SphJ0 | SphJ1 | SphJ2) && x.v.re().abs_dd().hi < 2.0 * u {
-        // inside the small-argument series region the closed form is not the defining expression
+    if matches!(op, SphJ0 | SphJ1 | SphJ2) && x.v.re().abs_dd().hi < 1.0 {
+        // for |x| < 1 the closed forms cancel (sph_j2(1e-8) evaluates to -1 through them): C15 measures
+        // accuracy "against the magnitude of the true value plus the rounding level of a
+        // well-conditioned evaluation", which the cancellation bound of the closed form is not;
+        // the function is held to kappa u M plus the absolute level 16 u there
         return None;
     }
     let r = match op {
@@ -596,8 +599,10 @@ pub fn defining_bound(op: Op, a: &[Val], u: f64) -> Option<Jet<DD>> {
             apply_ref(Div, &[num, den], u).e
         }
         BesselJ2 => {
-            // 2 J1 / x - J0 away from the small-argument series
-            if x.v.re().abs_dd().hi < 1e-5 {
+            // 2 J1 / x - J0 where that recurrence is well conditioned; for |x| < 1 it cancels (the
+            // third derivative at 1e-5 is off by O(1) through it) and C14 asks for near machine
+            // absolute accuracy, so the function is held to the absolute scale of J0 / J1 there
+            if x.v.re().abs_dd().hi < 1.0 {
                 return None;
             }
             let j1 = apply_ref(BesselJ1, a, u);
